@@ -169,7 +169,7 @@ def check_history(ctx: Ctx, ml, cls_name, patience, delta, rep, hist, model_out,
                 "(a NaN or +inf loss is a non-improving epoch; the first -inf loss is the final best)")
         lean = "pStepF (float-shaped machine)"
         kinds = ctx.notes.setdefault("nonfinite_samples", {})
-        kind = ("NaN" if NAN in hist else "") + ("+inf" if INF in hist else "") + ("-inf" if NINF in hist else "") + \
+        kind = ",".join(k for k, t in (("NaN", NAN), ("+inf", INF), ("-inf", NINF)) if t in hist) + \
             ("; before any finite loss" if not is_finite(hist[0]) else "; after a finite best")
         if kind not in kinds and len(hist) >= 3 and patience == 1:
             kinds[kind] = {k: case[k] for k in ("class", "patience", "min_delta", "rep", "losses", "impl")}
